@@ -270,3 +270,60 @@ def bc_conformity(out, grids, rng, thorough, optsets_fn=bc_optsets):
                                                 "what": "RBC function differs from n x BC on %s (%s) by %.3g" % (name, _opt_name(o), err),
                                                 "data": {"grid": name, "options": o}})
     out["worst"]["bc_conformity"] = worst
+
+
+def _edge_keys(grid, rwg):
+    keys = []
+    for d in range(rwg.global_dof_count):
+        g2l = rwg.global2local[d]
+        ce = int(grid.element_edges[g2l[0][1], g2l[0][0]])
+        keys.append(frozenset(tuple(np.round(grid.vertices[:, int(v)], 8)) for v in grid.edges[:, ce]))
+    return keys
+
+
+def mass_border(out, rng, thorough):
+    """Open grids with border-border interior edges of unequal cell counts: RWG x RBC and SNC x BC mass matrices
+    (a) against the order-8 quadrature of the product of the bases, (b) invariant (up to the signs of the basis functions)
+    under renumbering of vertices and elements."""
+    import c10_grids
+    worst = {}
+    for name, V, E, dom in c10_grids.border_catalogue(rng, thorough):
+        V2, E2, dom2, _ = c10_grids.renumber(np.asarray(V, float), np.asarray(E), np.asarray(dom), rng)
+        g1 = api.Grid(np.asarray(V, float), np.asarray(E, dtype=np.uint32), np.asarray(dom, dtype=np.uint32))
+        g2 = api.Grid(V2, E2, np.asarray(dom2, dtype=np.uint32))
+        mats = []
+        for g in (g1, g2):
+            sp = {k: api.function_space(g, k, 0) for k in ("RWG", "SNC", "BC", "RBC")}
+            keys = _edge_keys(g, sp["RWG"])
+            M = {}
+            for dk, tk in (("RWG", "RBC"), ("SNC", "BC")):
+                A = api.operators.boundary.sparse.identity(sp[dk], sp[tk], sp[tk]).weak_form().to_sparse().toarray()
+                R, S = reference_mass(sp[tk], sp[dk], g, g.barycentric_refinement)
+                err = float(np.abs(A - R).max() / max(S.max(), 1e-300))
+                worst["%s x %s vs quadrature" % (dk, tk)] = max(worst.get("%s x %s vs quadrature" % (dk, tk), 0.0), err)
+                out["search_evals"] += int(A.size)
+                if err > 1e-10:
+                    out["failures"].append({"signature": "C10:mixed_mass:%s x %s" % (dk.lower(), tk.lower()),
+                                            "what": "identity(%s, ., %s) on %s differs from order-8 quadrature by %.3g" % (dk, tk, name, err),
+                                            "data": {"grid": name, "vertices": g.vertices.tolist(), "elements": g.elements.tolist()}})
+                M[(dk, tk)] = A
+            mats.append((keys, M))
+        (k1, M1), (k2, M2) = mats
+        if sorted(map(sorted, k1)) != sorted(map(sorted, k2)):
+            continue                                    # reported by the renumbering search of the bcborder part
+        perm = [k2.index(k) for k in k1]
+        for pair in M1:
+            A, B = np.abs(M1[pair]), np.abs(M2[pair][np.ix_(perm, perm)])
+            err = float(np.abs(A - B).max() / max(A.max(), 1e-300))
+            worst["%s x %s renumbering" % pair] = max(worst.get("%s x %s renumbering" % pair, 0.0), err)
+            out["search_evals"] += int(A.size)
+            if err > 1e-9:
+                i, j = np.unravel_index(int(np.argmax(np.abs(A - B))), A.shape)
+                out["failures"].append({
+                    "signature": "C10:mixed_mass:%s x %s:renumbering" % (pair[0].lower(), pair[1].lower()),
+                    "what": "identity(%s, ., %s) on %s: |entry| of the functions of the same two edges changes from %.10g to %.10g "
+                            "when vertices/elements of the same mesh are renumbered (relative %.3g)" % (
+                                pair[0], pair[1], name, A[i, j], B[i, j], err),
+                    "data": {"grid": name, "vertices": np.asarray(V).tolist(), "elements": np.asarray(E).tolist(),
+                             "renumbered_vertices": V2.tolist(), "renumbered_elements": E2.tolist()}})
+    out["worst"]["mass_border"] = worst
